@@ -13,6 +13,8 @@ def rule_g1(ctx, F):
     fn = ctx.need_fn(F, "ts_parser__lex", "G1")
     if not fn:
         return
+    bind(fn, "symbol", "self->lexer.data.result_symbol")
+    bind(fn, "is_keyword", "ts_parser__call_keyword_lex_fn(self)")
     acc = [pt for pt, n in find(fn, "symbol = self->lexer.data.result_symbol")]
     ctx.floor("keyword replaces word token (store)", len(acc), 1)
     ctx.gate("G1", fn, acc, [
